@@ -1,33 +1,33 @@
 (* decode + build (loadYAML / loadDAG without base configuration): the theorems of Proofs.v and DecodeProofs.v
-   put together over untyped trees. *)
+   put together over ALL untyped trees. *)
 From Coq Require Import List ZArith String Ascii Bool Arith.
 Import ListNotations.
 From BD.Loader Require Import Str Model Decode Proofs DecodeProofs.
 Open Scope string_scope.
 Open Scope list_scope.
 
-Theorem load_no_panic_partial :
-  forall (cron : string -> cronv) (sig_ok : string -> bool) (tokenize : string -> list (string * string))
+(* C13: loading any tree never panics.  The one hypothesis is about the cron library: it panics on nothing but
+   a spec that is a bare TZ= / CRON_TZ= prefix - which parseCron no longer hands to it (fix 519d0a6). *)
+Theorem load_no_panic :
+  forall (cron : string -> cronv), (forall s, cron s = CronPanic -> tz_only s = true) ->
+  forall (sig_ok : string -> bool) (tokenize : string -> list (string * string))
          (sh : string -> option string) (o : opts) (root : yv) (e : envt),
-  all_keys_strings root = true ->
-  (forall d, decode root = Ok d -> no_nil d = true /\ sched_safe cron (d_schedule d) = true) ->
   outcome (load_tree cron sig_ok tokenize sh o root e) <> Panic.
 Proof.
-  intros cron sig_ok tokenize sh o root e Hk Hd. unfold load_tree.
-  pose proof (decode_no_panic_partial root Hk) as Hdec.
+  intros cron Hc sig_ok tokenize sh o root e. unfold load_tree.
+  pose proof (decode_no_panic root) as Hdec.
   destruct (decode root) as [| |d] eqn:E; try congruence; try discriminate.
-  destruct (Hd d eq_refl) as [H1 H2]. apply build_no_panic_partial; assumption.
+  apply build_no_panic; [exact Hc | exact (decode_no_nil _ _ E)].
 Qed.
 
-Theorem load_no_effects_partial :
+(* C19: loading any tree with noEval has no effect and leaves the environment as it is *)
+Theorem load_no_effects :
   forall (cron : string -> cronv) (sig_ok : string -> bool) (tokenize : string -> list (string * string))
          (sh : string -> option string) (o : opts) (root : yv) (e : envt),
   o_noEval o = true ->
-  (forall d, decode root = Ok d ->
-     tokenize (effective_params o d) = [] /\ (o_metadataOnly o = true \/ logdir_commands e d = [])) ->
   effects (load_tree cron sig_ok tokenize sh o root e) = [] /\ env_after (load_tree cron sig_ok tokenize sh o root e) = e.
 Proof.
-  intros cron sig_ok tokenize sh o root e Hn Hd. unfold load_tree.
+  intros cron sig_ok tokenize sh o root e Hn. unfold load_tree.
   destruct (decode root) as [| |d] eqn:E; try (split; reflexivity).
-  destruct (Hd d eq_refl) as [H1 H2]. apply build_no_effects_partial; assumption.
+  apply build_no_effects; assumption.
 Qed.
